@@ -15,6 +15,18 @@ pub fn scenarios(thorough: bool) -> Vec<Scenario> {
         c3.merges = true;
         c3.per_denom = 1;
         v.push(sc("custom02-utxo-3tx", NetID::Custom02, 0, c3, 5));
+        // refused batches are followed: the search goes on from the state object the refused call was made on ("if it is rejected
+        // the state is left exactly as it was" - including whatever no header commits to)
+        let mut fr = AlphaCfg::base();
+        fr.per_denom = 1;
+        fr.max_txs_per_block = 3;
+        fr.stakes = true;
+        let mut frs = sc("custom02-utxo-refusals-followed", NetID::Custom02, 0, fr.clone(), 4);
+        frs.follow_rejected = true;
+        v.push(frs);
+        let mut frf = sc("custom02-fees-refusals-followed", NetID::Custom02, 65536, fr, 4);
+        frf.follow_rejected = true;
+        v.push(frf);
         // locked coins: a stake (with change), then spends of its outputs in every input position
         let mut st = AlphaCfg::base();
         st.per_denom = 1;
